@@ -203,12 +203,14 @@ pub fn c03(scn: &Scenario, tr: &[Ev]) -> Vec<Violation> {
             }
             Some(Res::Err { k: ek, .. }) if k == SendKind::AskJoin => {
                 let end = ix.msg_spec(m).map(|s| s.task_end);
-                let handled = exit.is_some();
+                // once the handler has replied with the JoinHandle, only the task's own fate may be reported
+                let replied = exit.map(|(_, s)| s.starts_with("Ok")).unwrap_or(false);
                 match ek {
                     ErrK::JoinPanic if end != Some(TaskEnd::Panic) => v(&mut out, "C03 ask_join error", format!("ask_join {m}: Join(panic) but task end is {end:?}")),
                     ErrK::JoinCancelled if end != Some(TaskEnd::Abort) => v(&mut out, "C03 ask_join error", format!("ask_join {m}: Join(cancelled) but task end is {end:?}")),
-                    ErrK::Send | ErrK::Receive | ErrK::JoinPanic | ErrK::JoinCancelled => {}
-                    other => v(&mut out, "C03 ask_join error", format!("ask_join {m}: unexpected error {other:?} (handled={handled})")),
+                    ErrK::JoinPanic | ErrK::JoinCancelled => {}
+                    ErrK::Send | ErrK::Receive if !replied => {}
+                    other => v(&mut out, "C03 ask_join returns the task's outcome", format!("ask_join {m}: the handler replied with its JoinHandle (task end {end:?}) but ask_join returned {other:?}")),
                 }
             }
             Some(Res::Unit) | Some(Res::Ok) => {}
@@ -218,6 +220,15 @@ pub fn c03(scn: &Scenario, tr: &[Ev]) -> Vec<Violation> {
             None => {
                 // pending at terminal quiescence
                 if !k.is_ask() {
+                    continue;
+                }
+                if k == SendKind::AskJoin && exit.is_some() {
+                    // waiting for the spawned task, which is harness-controlled: it must have run to its end
+                    let task_done = tr.iter().any(|e| matches!(&e.k, EvK::Exit { hook: Hook::Task, msg: Some(mm), .. } if *mm == m))
+                        || ix.msg_spec(m).map(|s| s.task_end == TaskEnd::Abort).unwrap_or(false);
+                    if task_done {
+                        v(&mut out, "C03 ask_join never completes", format!("ask_join {m} (op {}) still pending although its task has ended", o.op));
+                    }
                     continue;
                 }
                 if ax.joined.is_some() {
@@ -552,6 +563,17 @@ pub fn c07(scn: &Scenario, tr: &[Ev]) -> Vec<Violation> {
             }
             if ax.joined.is_none() && !(ax.on_stop_exit.is_none()) {
                 v(&mut out, "C07 join handle resolves", format!("actor {a}: on_stop finished but the JoinHandle did not resolve"));
+            }
+            // finishes the work accepted before that point
+            let first_stop = ix.first_stop(a);
+            for o in ix.sends_to(a) {
+                let (Some(m), Some(acc)) = (o.msg, accepted_at(&ix, o)) else { continue };
+                if first_stop.map(|s| acc > s).unwrap_or(false) {
+                    continue;
+                }
+                if !ax.handler_called.contains_key(&m) && ax.on_stop_called.first().is_some() {
+                    v(&mut out, "C07 finishes accepted work", format!("actor {a}: message {m} accepted before the stop/last drop was not handled"));
+                }
             }
         } else if strong > 0 && !stopped && !stop_pending {
             if !ax.on_stop_called.is_empty() || ax.joined.is_some() {
